@@ -17,10 +17,12 @@ inductive Act
   | drop                                -- close the connection without reply
   | stall                               -- stay silent forever, connection open
   | garbage                             -- bytes that are not an SMTP reply
+  | tlsBad                              -- (handshake position only) certificate the client must reject
 deriving Repr, DecidableEq
 
 inductive Verb
   | greeting | ehlo | helo | mail | rcpt | data | eod | rset | noop | quit | starttls | auth | other
+  | handshake | authStep | authAbort
 deriving Repr, DecidableEq
 
 /-- what the client gets back from one command / read -/
@@ -28,6 +30,10 @@ inductive Err
   | reply (code : Nat) (text : Bytes)   -- *textproto.Error: unexpected reply code
   | eof                                 -- connection dropped by the server
   | proto                               -- textproto.ProtocolError (garbage)
+  | tls                                 -- TLS handshake failed
+  | mech (tag : Nat)                    -- error returned by the SASL mechanism (Start / Next)
+  | noAuthSupport | authNotSupported    -- server does not advertise AUTH / the mechanism
+  | noStartTLS                          -- mandatory STARTTLS not offered
   | timeout                             -- deadline exceeded while the server was silent
   | blocked                             -- the read had no deadline: the call would block forever
   | closed                              -- write on a connection the client already closed
@@ -48,7 +54,18 @@ inductive Ev
   | close                               -- client closed the connection
   | deadline                            -- client armed / extended the connection deadline
   | stall (armed : Bool)                -- client waited on a silent server, with / without deadline
+  | tlsOn                               -- TLS handshake completed: everything after this is encrypted
+  | tlsFail                             -- TLS handshake failed (client side rejects / garbage)
 deriving Repr, DecidableEq
+
+/-- a record handed to the logger: direction (true = client to server), reply code, payload -/
+structure LogRec where
+  c2s  : Bool
+  code : Nat := 0
+  text : Bytes
+deriving Repr, DecidableEq
+
+def redacted : Bytes := sb "<SMTP auth data redacted>"
 
 structure Conn where
   script   : List Act
@@ -67,6 +84,14 @@ structure Conn where
   localName : Bytes := sb "localhost"
   dsnmrtype : Bytes := []
   dsnrntype : Bytes := []
+  serverName : Bytes := []
+  tls      : Bool := false              -- the connection is a *tls.Conn
+  auth     : List Bytes := []           -- mechanisms of the latest EHLO's AUTH line
+  -- debug logging
+  debug    : Bool := false
+  logAuthData : Bool := false
+  authActive : Bool := false
+  logs     : List LogRec := []
 deriving Repr
 
 def Conn.ev (c : Conn) (e : Ev) : Conn := { c with trace := c.trace ++ [e] }
@@ -84,6 +109,9 @@ def defaultReply (caps : List Bytes) : Verb → Nat × Bytes
   | .starttls => (220, sb "2.0.0 Ready to start TLS")
   | .auth => (235, sb "2.7.0 Authentication successful")
   | .other => (500, sb "5.5.2 Error: command not recognized")
+  | .handshake => (0, [])
+  | .authStep => (235, sb "2.7.0 Authentication successful")
+  | .authAbort => (501, sb "5.0.0 Authentication aborted")
 
 /-- textproto's expected-code rule -/
 def codeMatches (expect code : Nat) : Bool :=
@@ -108,6 +136,7 @@ def Conn.serverTurn (c : Conn) (v : Verb) (expect : Nat) : Conn × Except Err (N
       let c := { c with srvSilent := true }
       (c.ev (.stall c.armed), .error (if c.armed then .timeout else .blocked))
     | .garbage => (c.ev .garbage, .error .proto)
+    | .tlsBad => (c.ev .garbage, .error .proto)   -- only meaningful at a handshake position
     | .ok | .reply _ _ =>
       let (code, text) := match a with
         | .reply code text => (code, text)
@@ -119,12 +148,24 @@ def Conn.serverTurn (c : Conn) (v : Verb) (expect : Nat) : Conn × Except Err (N
       if codeMatches expect code then (c, .ok (code, text)) else (c, .error (.reply code text))
 
 /-- smtp.Client.cmd: write one command line, read one reply -/
+def Conn.log (c : Conn) (r : LogRec) : Conn := if c.debug then { c with logs := c.logs ++ [r] } else c
+
 def Conn.cmd (c : Conn) (v : Verb) (line : Bytes) (expect : Nat) : Conn × Except Err (Nat × Bytes) :=
+  -- debugLog(client to server): the command, or the redaction marker while an AUTH exchange is active
+  let c := c.log { c2s := true, text := if c.authActive then redacted else line }
   if !c.cliOpen then (c, .error .closed)
   else
     -- a command reaches the server only while it is still there and listening
     let c := if c.srvGone || c.srvSilent then c else c.ev (.cmd v line)
-    c.serverTurn v expect
+    let (c, r) := c.serverTurn v expect
+    -- debugLog(server to client): code and text; 3xx replies are redacted while AUTH is active
+    let (code, text) := match r with
+      | .ok (code, text) => (code, text)
+      | .error (.reply code text) => (code, text)
+      | .error _ => (0, [])
+    let c := c.log { c2s := false, code := code,
+                     text := if c.authActive && 300 ≤ code && code ≤ 400 then redacted else text }
+    (c, r)
 
 /-- smtp.Client.Close / textproto.Conn.Close -/
 def Conn.close (c : Conn) : Conn :=
@@ -153,7 +194,12 @@ def Conn.hasExt (c : Conn) (k : String) : Bool :=
 def Conn.ehlo (c : Conn) : Conn × Option Err :=
   match c.cmd .ehlo (sb "EHLO " ++ c.localName) 250 with
   | (c, .error e) => (c, some e)
-  | (c, .ok (_, msg)) => ({ c with ext := some (parseExt msg) }, none)
+  | (c, .ok (_, msg)) =>
+    let ext := parseExt msg
+    let c := match extGet ext (sb "AUTH") with
+      | some mechs => { c with auth := splitOn 32 mechs }
+      | none => c
+    ({ c with ext := some ext }, none)
 
 def Conn.helo (c : Conn) : Conn × Option Err :=
   let c := { c with ext := none }
